@@ -223,3 +223,11 @@ func (v *VerifValidator) FullyValidateMessage(ctx context.Context, m PartiallyVa
 	return v.v.FullyValidateMessage(ctx, m)
 }
 func (v *VerifValidator) EvictGroupsBelow(instance uint64) { v.cache.RemoveGroupsLessThan(instance) }
+
+// VerifProgression exposes the production progress cell that the participant writes (NotifyProgress at every
+// instance / round / step change) and that validation goroutines read concurrently.
+type VerifProgression struct{ a *atomicProgression }
+
+func VerifNewProgression() *VerifProgression           { return &VerifProgression{a: newAtomicProgression()} }
+func (p *VerifProgression) Notify(ip InstanceProgress) { p.a.NotifyProgress(ip) }
+func (p *VerifProgression) Get() InstanceProgress      { return p.a.Get() }
